@@ -693,14 +693,14 @@
 	fn table(pairs: &[(&str, &str)]) -> BTreeMap<String, String> { pairs.iter().map(|(a, b)| (a.to_string(), b.to_string())).collect() }
 	fn res(s: &str) -> MEntry { MEntry::Res(s.as_bytes().to_vec()) }
 
-	/// every non-empty set of the four classes x every class table that gives the classes of the jar different names x 4 member tables; the input form rotates
-	#[test]
-	fn jar_classes_are_renamed_and_stored_under_their_new_names() {
+	/// every non-empty set of the four classes x every class table over the four classes that gives the classes of the jar different names x the given member tables; the input form rotates
+	fn classes_case_loop(name: &'static str, member_tables: &[usize]) {
 		quiet(); self_check();
-		let mut t = Tally::new("jar_classes_are_renamed_and_stored_under_their_new_names");
-		let (classes, tables) = (four_classes(), all_class_tables());
+		let mut t = Tally::new(name);
+		let classes = four_classes();
+		let tables: Vec<BTreeMap<String, String>> = all_class_tables().into_iter().filter(|m| !m.contains_key("ext/E")).collect();
 		let mut n = 0usize;
-		for set in 1u32..16 { for tb in &tables { for members in 0..4 {
+		for set in 1u32..16 { for tb in &tables { for &members in member_tables {
 			let mut j: MJar = vec![("META-INF/".into(), MEntry::Dir), ("META-INF/MANIFEST.MF".into(), res("Manifest-Version: 1.0\r\nMain-Class: p.A\r\n\r\n"))];
 			for (i, c) in classes.iter().enumerate() { if set & (1 << i) != 0 { j.push(class_entry(c.clone())); if i == 0 { j.push(("p/A.txt".into(), res("p/A"))); } } }
 			j.push(("p/".into(), MEntry::Dir));
@@ -712,6 +712,10 @@
 		}}}
 		t.finish();
 	}
+	#[test]
+	fn jar_classes_renamed_member_tables_none_and_all() { classes_case_loop("jar_classes_renamed_member_tables_none_and_all", &[0, 1]); }
+	#[test]
+	fn jar_classes_renamed_member_tables_halves() { classes_case_loop("jar_classes_renamed_member_tables_halves", &[2, 3]); }
 
 	/// the same classes and tables in every input form, for the jar with all four classes
 	#[test]
@@ -742,23 +746,25 @@
 			("bin/all.bytes".into(), MEntry::Res((0u8..=255).collect())),
 		]
 	}
-	/// non-class entries: every subset of nine (directories, manifest, service file, names that resemble the class entry, class bytes under another name, empty and binary content) around the classes
-	#[test]
-	fn jar_non_class_entries_are_untouched() {
+	/// non-class entries: every subset of nine (directories, manifest, service file, names that resemble the class entry, class bytes under another name, empty and binary content) around the classes, in every input form
+	fn non_class_case_loop(name: &'static str, tb: BTreeMap<String, String>, members: usize) {
 		quiet(); self_check();
-		let mut t = Tally::new("jar_non_class_entries_are_untouched");
+		let mut t = Tally::new(name);
 		let menu = non_class_menu();
-		let tables = [table(&[]), table(&[("p/A", "p/X")]), table(&[("p/A", "q/r/A"), ("p/B", "p/A")]), table(&[("p/A", "X"), ("p/B", "p/Y"), ("ext/E", "ext/F")])];
-		for set in 0u32..512 { for (ti, tb) in tables.iter().enumerate() { for form in FORMS {
+		for set in 0u32..512 { for form in FORMS {
 			let mut j: MJar = Vec::new();
 			for (i, e) in menu.iter().enumerate() { if set & (1 << i) != 0 { j.push(e.clone()); } if i == 3 { j.push(class_entry(class_a())); } }
 			j.push(class_entry(class_b()));
-			let r = remapper(tb, ti % 4);
-			t.case(set != 0 && ti != 0);
+			let r = remapper(&tb, members);
+			t.case(set != 0);
 			check_case(&mut t, &j, &r, form);
-		}}}
+		}}
 		t.finish();
 	}
+	#[test]
+	fn jar_non_class_entries_are_untouched() { non_class_case_loop("jar_non_class_entries_are_untouched", table(&[("p/A", "q/r/A"), ("p/B", "p/A"), ("ext/E", "ext/F")]), 1); }
+	#[test]
+	fn jar_non_class_entries_with_the_empty_remapper() { non_class_case_loop("jar_non_class_entries_with_the_empty_remapper", table(&[]), 0); }
 
 	fn permutations(n: usize) -> Vec<Vec<usize>> {
 		fn rec(cur: &mut Vec<usize>, n: usize, out: &mut Vec<Vec<usize>>) {
@@ -777,12 +783,12 @@
 		let base: MJar = vec![class_entry(class_a()), class_entry(class_b()), class_entry(class_in()), ("p/".into(), MEntry::Dir), ("p/A.txt".into(), res("p/A"))];
 		let tables = [table(&[]), table(&[("p/A", "p/B"), ("p/B", "p/A")]), table(&[("p/A", "p/B"), ("p/B", "p/A$In"), ("p/A$In", "p/A")]), table(&[("p/A", "p/B"), ("p/B", "q/r/B")]),
 			table(&[("p/B", "p/A"), ("p/A", "X")]), table(&[("p/A$In", "p/X$In"), ("p/A", "p/X")])];
-		for p in permutations(5) { for (ti, tb) in tables.iter().enumerate() { for members in [0, 1] { for form in FORMS {
+		for p in permutations(5) { for (ti, tb) in tables.iter().enumerate() { for form in FORMS {
 			let j: MJar = p.iter().map(|&i| base[i].clone()).collect();
-			let r = remapper(tb, members);
+			let r = remapper(tb, 1);
 			t.case(ti != 0);
 			check_case(&mut t, &j, &r, form);
-		}}}}
+		}}}
 		t.finish();
 	}
 
